@@ -11,5 +11,6 @@ MCSizes3 == {1, 3, 16}
 MCPercents3 == {10, 33, 50}
 MCQueueCaps == {0, 1, 2, 3, 4, 7, 8, 100, 8192}
 MCArms == {FALSE, TRUE}
+MCHelds == {-1, 0, 1}
 MCExtra == <<<<1048576, <<<<16384, 3>>, <<32748, 59>>, <<49210, 38>>>>, TRUE>>, <<1048576, <<<<1024, 1>>, <<256, 47>>, <<16038, 21>>, <<1048576, 31>>>>, TRUE>>, <<1051550, <<<<289858, 12>>, <<1024, 18>>, <<32748, 11>>, <<11267, 18>>>>, TRUE>>>>
 ====
